@@ -309,6 +309,10 @@ var c12xTemplates = []c12xf{
 		[]string{"function Fo\x01(n) return n end\n",
 			"Fo\x01(1)\n", "\nFo\x01(2)\n", "\n\n Fo\x01(3)\n", "local r = Fo\x01(4)\n", "print(Fo\x01(5))\n"},
 		[][4]int{{0, 1, 9, 3}, {1, 1, 0, 3}, {2, 2, 0, 3}, {3, 3, 1, 3}, {4, 1, 10, 3}, {5, 1, 6, 3}}},
+	// a use at the line and column at which another file declares the global
+	{[]string{"tbl.lua", "net.lua"},
+		[]string{"Cf\x01 = {}\n", "Cf\x01.y = 2\nq = Cf\x01\n"},
+		[][4]int{{0, 1, 0, 3}, {1, 1, 0, 3}, {1, 2, 4, 3}}},
 }
 
 func VerifRun_C12d() {
